@@ -27,8 +27,10 @@ class Explorer:
         self.max_paths = max_paths
         self.pending: list[list[bool]] = [[]]
         self.paths = 0
-        self.solver = z3.Solver()
-        self.solver.set("timeout", timeout_ms)
+        self.timeout_ms = timeout_ms
+        self._ps = None
+        self._ps_n = 0
+        self._ps_pc_id = None
         self.base: list = []
         self.n_queries = 0
         self.time = 0.0
@@ -41,36 +43,57 @@ class Explorer:
     # -- constraints common to all paths
     def assume(self, c):
         self.base.append(c)
+        self._ps = None
+
+    def _path_solver(self):
+        """incremental solver holding base + the current path condition"""
+        if self._ps is None or self._ps_n > len(self.pc) or self._ps_pc_id != id(self.pc):
+            s = z3.Solver()
+            s.set("timeout", self.timeout_ms)
+            for c in self.base:
+                s.add(c)
+            self._ps = s
+            self._ps_n = 0
+            self._ps_pc_id = id(self.pc)
+        for c in self.pc[self._ps_n :]:
+            self._ps.add(c)
+        self._ps_n = len(self.pc)
+        return self._ps
 
     def _check(self, extra) -> str:
         t0 = time.time()
-        self.solver.push()
         try:
-            for c in self.base + self.pc + list(extra):
-                self.solver.add(c)
-            r = self.solver.check()
+            s = self._path_solver()
+            extra = list(extra)
+            if len(extra) > 1:
+                extra = [z3.And(*extra)]
+            r = s.check(*extra)
             self.n_queries += 1
             return str(r)
         finally:
-            self.solver.pop()
             self.time += time.time() - t0
+
+    def with_pc(self, pc):
+        """switch to a recorded path condition (for post-hoc oracle queries)"""
+        self.pc = list(pc)
+        self._ps = None
 
     def sat(self, extra=()) -> bool:
         return self._check(extra) == "sat"
 
     def model(self, extra=()):
         t0 = time.time()
-        self.solver.push()
         try:
-            for c in self.base + self.pc + list(extra):
-                self.solver.add(c)
-            r = self.solver.check()
+            s = self._path_solver()
+            extra = list(extra)
+            if len(extra) > 1:
+                extra = [z3.And(*extra)]
+            r = s.check(*extra)
             self.n_queries += 1
             if str(r) != "sat":
                 return None
-            return self.solver.model()
+            return s.model()
         finally:
-            self.solver.pop()
             self.time += time.time() - t0
 
     def decide(self, cond) -> bool:
@@ -120,6 +143,7 @@ class Explorer:
             self.prefix = self.pending.pop()
             self.decisions = []
             self.pc = []
+            self._ps = None
             _CUR[0] = self
             try:
                 r = program()
